@@ -447,8 +447,10 @@ def closest_point_triangle(a, b, c):
         n = np.cross(ab, ac)
     n_len_sq = np.dot(n, n)
 
-    # Check degenerate
-    if n_len_sq < EPSILON_SQR:
+    # Check degenerate: |n| = longest edge * height, so compare with the
+    # longest edge to detect slivers of any size, not only tiny triangles
+    max_edge_sq = max(ab.dot(ab), ac.dot(ac), bc.dot(bc))
+    if n_len_sq <= EPSILON * max_edge_sq * max_edge_sq:
         # Degenerate, fallback to edges
 
         # Edge AB
